@@ -158,6 +158,9 @@ class AddrGroup(Base, Group):
                 # description
                 if item.startswith("description "):  # todo description
                     continue
+                # comment
+                if line.startswith("!"):
+                    continue
                 # AddressAg
                 item_: OAddressAg = self._line_to_address(line)
                 if not item_:
